@@ -1,6 +1,7 @@
 package c03
 
 import (
+	"encoding/hex"
 	"context"
 	"testing"
 
@@ -46,4 +47,20 @@ func TestMutateRuns(t *testing.T) {
 	t.Logf("%d distinct op:kind", len(ops))
 	l, ok := FindLiar(limitModule(0))
 	t.Logf("liar of limit module: %+v %v", l, ok)
+}
+
+func TestFindLiarWitnesses(t *testing.T) {
+	for _, c := range []struct{ hex, want string }{
+		{"0061736d010000000105016000017b03020100070501016600000a1b011900fd808080808000030080a6030080a6030080a6030080a60b000d046e616d650206010080808008", "name-count"},
+		{"0061736d01000000021601094d7461626c655f657806742d66756e63016f0001000280808080016e616d65020100", "name-len"},
+		{"0061736d01000000010401600000030201000a0e010c0044ffffffffffffefff1a0b000b046e616d650203010000000a80808080087a21574f9b", "name-len"},
+		{"0061736d0100000007055ecc9b88ed0a1802ce9baa8eabebd25a8e939ad068e97a46291e6431d98168", "name-len"},
+		{"0061736d01000000062b027b00fd0c000000000000000000000000000000000b7b01fd0c000000000000000000000000000000000b002b046e616d6503130200019983bb8f0f016c0201d5aad5aa05016c000101420205808080800803048080800807140206672d763132380300076d672d7631323803010008046e616d65020100", "name-count"},
+	} {
+		b, _ := hex.DecodeString(c.hex)
+		l, ok := FindLiar(b)
+		if !ok || l.Class != c.want {
+			t.Errorf("%s...: got %+v %v want %s", c.hex[:40], l, ok, c.want)
+		}
+	}
 }
